@@ -61,7 +61,7 @@ package asm
 
 //@ func (*Emitter).EmitBytes
 //@   params a b
-//@   property C19 C15
+//@   property C19 C15 C06 C16
 //@   modular
 //@   requires a.n >= 0 && a.n <= len(a.code)
 //@   panics !isnil(a.code) && a.n+len(b) > len(a.code)
@@ -201,7 +201,7 @@ package asm
 
 //@ func (*Emitter).Finalize
 //@   params a
-//@   property C06
+//@   property C06 C15
 //@   modular
 //@   requires !isnil(a.code) && len(a.code) <= 0x1000000
 //@   requires WF_S8IN(a) && WF_U16IN(a)
